@@ -25,6 +25,12 @@ pub struct Map<K, V> { p: core::marker::PhantomData<(K, V)> }
 
 
 pub uninterp spec fn str_bytes(s: Seq<char>) -> Seq<u8>;   // UTF-8 bytes of a string
+// UTF-8 encoding facts (TRUSTED): injective; an ASCII string encodes to its own code points
+pub axiom fn axiom_str_bytes_inj(a: Seq<char>, b: Seq<char>)
+    ensures str_bytes(a) == str_bytes(b) ==> a == b;
+pub axiom fn axiom_str_bytes_ascii(s: Seq<char>)
+    requires forall|i: int| 0 <= i < s.len() ==> (s[i] as u32) < 128
+    ensures str_bytes(s).len() == s.len(), forall|i: int| 0 <= i < s.len() ==> str_bytes(s)[i] == s[i] as u8;
 
 pub open spec fn map_load<V: CwVal>(st: St, raw: Seq<u8>) -> StdResult<V> {
     if st.contains_key(raw) { V::de(st[raw]) } else { Err(StdError) }
